@@ -469,6 +469,11 @@ func c16Workload(env *scratch.Env, tier string, rng *core.Rand) []*c16Exec {
 	addArgs("empty-file", map[string]string{"a.fo": ""}, nil, []string{"a.fo"}, false)
 	addArgs("only-package-line", map[string]string{"a.fo": "package main"}, nil, []string{"a.fo"}, false)
 	addArgs("subdir-file", map[string]string{"sub/dir/a.fo": good}, nil, []string{"sub/dir/a.fo"}, false)
+	// file names whose stem ends in the letters of the extension, contains dots, spaces, non-ASCII
+	for _, n := range []string{"hello.fo", "f.fo", "o.fo", "go.fo", "off.fo", "a.b.fo", "x.fo.fo", "info.fo", "with space.fo", "日本.fo", "UPPER.fo", "gen_x.fo", "-dash.fo"} {
+		addArgs("file-name:"+n, map[string]string{n: good}, nil, []string{n}, false)
+	}
+	addArgs("file-names-together", map[string]string{"hello.fo": good, "go.fo": strings.Replace(good, "let f ", "let g ", 1), "a.b.fo": strings.Replace(good, "let f ", "let h ", 1)}, nil, []string{"hello.fo", "go.fo", "a.b.fo"}, false)
 	addArgs("non-fo-extension", map[string]string{"a.txt": good}, nil, []string{"a.txt"}, false)
 	addArgs("bad-foi", map[string]string{"a.foi": "package_info q =\n  let F: int->\n", "a.fo": good}, nil, []string{"a.foi", "a.fo"}, false)
 	// --- output faults
@@ -699,6 +704,7 @@ func runC16(r *core.Run, tier string) {
 		os.RemoveAll(d)
 	})
 	classes := map[string]int64{}
+	scaleSeen := map[string]string{}
 	outcomes := map[string]int64{}
 	injected := 0
 	var notInjected []string
@@ -723,6 +729,13 @@ func runC16(r *core.Run, tier string) {
 			}
 		}
 		class, what := c16Judge(e, o)
+		if e.scale {
+			oc := fmt.Sprintf("exit=%d cpu_ms=%d", o.exit, o.cpuMs)
+			if class != "" {
+				oc += " " + class
+			}
+			scaleSeen[strings.TrimPrefix(e.id, "scale:")] = oc
+		}
 		if class == "" {
 			continue
 		}
@@ -742,6 +755,7 @@ func runC16(r *core.Run, tier string) {
 		r.Violate(class+":"+e.id, fmt.Sprintf("[%s] %s: %s", e.desc, class, what), files)
 	}
 	r.Set("executions_by_class", classes)
+	r.Set("size_scaled_inputs", scaleSeen)
 	r.Set("outcomes", outcomes)
 	r.Set("fault_runs", len(faults))
 	r.Set("fault_runs_with_syscall_injected", injected)
